@@ -53,6 +53,8 @@ def H(sid, status, body, reqlen=0, incr=0, es=1, dep="-", padbad=0, contbad=0, c
         reqlen = -1            # no END_STREAM and no content-length: body length unknown
     if status == 400:
         reqlen = 0             # rejected request: body length forced to 0
+        if (sid // 2) % 2 == 1:
+            incr = 0           # (the variant rejected in mid-block: the priority field behind it is discarded)
     t = "H:%d:r%d,%d,%d,%d:%d:%s:%d:%d" % (sid, status, body, reqlen, incr, es, dep, padbad, contbad)
     return t if cont is None else t + ":%d" % cont
 
@@ -371,8 +373,14 @@ def canon_model(step):
 
 
 # ------------------------------------------------------------------ RFC 9113 monitor (oracle)
-def monitor(sent_tokens_by_step, frames_by_step):
-    """independent check of the server's frame trace; returns a message or None"""
+def sig_of(verdict):
+    """stable signature of an oracle verdict (numbers dropped)"""
+    return re.sub(r"\d+", "N", verdict)[:70]
+
+
+def monitor(sent_tokens_by_step, frames_by_step, raw=False):
+    """independent check of the server's frame trace; returns a message or None
+    (raw: the client's frames are not known as tokens: only the server-side rules are checked)"""
     client_opened = set()
     hdr_seen, ended, rst_sent = set(), set(), set()
     goaway_err = False
@@ -380,9 +388,14 @@ def monitor(sent_tokens_by_step, frames_by_step):
     acks = pings = 0
     max_frame = 16384
     last_goaway = None
+    preopen_rst = set()
     for toks, frames in zip(sent_tokens_by_step, frames_by_step):
         for t in toks:
             a = t.split(":")
+            if a[0] == "Y" and a[2] == "5" and a[1] == a[3] and int(a[1]) not in client_opened:
+                # (RFC 7540 5.3.1 leftover kept by lighttpd: RST_STREAM(PROTOCOL_ERROR) for a PRIORITY frame that
+                #  makes a still idle stream depend on itself; the stream is not open, opening it later is legal)
+                preopen_rst.add(int(a[1]))
             if a[0] == "H":
                 client_opened.add(int(a[1]))
             if a[0] == "S" and a[1] == "0":
@@ -399,7 +412,7 @@ def monitor(sent_tokens_by_step, frames_by_step):
             if t in (0, 1, 9):
                 if goaway_err:
                     return "stream frame (type %d, stream %d) sent after an error GOAWAY" % (t, sid)
-                if sid == 0 or sid % 2 == 0 or sid not in client_opened:
+                if sid == 0 or sid % 2 == 0 or (sid not in client_opened and not raw):
                     return "%s on stream %d which the client never opened" % (e2e.FT[t], sid)
                 if sid in ended:
                     return "%s on stream %d after END_STREAM" % (e2e.FT[t], sid)
@@ -416,7 +429,10 @@ def monitor(sent_tokens_by_step, frames_by_step):
                     return "RST_STREAM on stream 0"
                 if len(pl) != 4:
                     return "RST_STREAM of length %d" % len(pl)
-                rst_sent.add(sid)
+                if sid in preopen_rst and int.from_bytes(pl[:4], "big") == 1:
+                    preopen_rst.discard(sid)
+                else:
+                    rst_sent.add(sid)
             elif t == 4:
                 if sid != 0:
                     return "SETTINGS on stream %d" % sid
@@ -441,10 +457,294 @@ def monitor(sent_tokens_by_step, frames_by_step):
             elif t == 8:
                 if len(pl) != 4 or int.from_bytes(pl, "big") & 0x7fffffff == 0:
                     return "malformed WINDOW_UPDATE"
+    if raw:
+        return None
     if acks > n_settings:
         return "more SETTINGS acknowledgements (%d) than SETTINGS received (%d)" % (acks, n_settings)
     if pings > n_ping:
         return "more PING acks (%d) than PINGs received (%d)" % (pings, n_ping)
+    return None
+
+
+# ------------------------------------------------------------------ client-side oracle
+# Written from RFC 9113 and the CLIENT's frames only (not from the model): which connection error /
+# stream error do the frames the client has sent so far warrant, and which requests are owed a
+# complete response.  A GOAWAY with an error code, an RST_STREAM, or a missing / wrong / incomplete
+# response that no client frame warrants is a violation of "well-formed requests interleaved with
+# noise on other streams still get complete, correct responses".
+E_PROTOCOL, E_INTERNAL, E_FLOW, E_CLOSED, E_FSIZE, E_REFUSED, E_COMP, E_CALM = 1, 2, 3, 5, 6, 7, 9, 11
+E_NAME = {0: "NO_ERROR", 1: "PROTOCOL_ERROR", 2: "INTERNAL_ERROR", 3: "FLOW_CONTROL_ERROR", 4: "SETTINGS_TIMEOUT",
+          5: "STREAM_CLOSED", 6: "FRAME_SIZE_ERROR", 7: "REFUSED_STREAM", 8: "CANCEL", 9: "COMPRESSION_ERROR",
+          10: "CONNECT_ERROR", 11: "ENHANCE_YOUR_CALM"}
+ADV_MAX_STREAMS = 8            # SETTINGS_MAX_CONCURRENT_STREAMS lighttpd advertises (the monitor checks it is honoured)
+
+
+class ClientView:
+    def __init__(self):
+        self.max_sid = 0
+        self.st = {}               # streams the client opened: sid -> dict
+        self.conn = set()          # GOAWAY error codes some client frame warrants
+        self.serr = {}             # sid -> RST_STREAM codes warranted
+        self.refusable = set()
+        self.n_headers = 0
+        self.win_changed = False
+        self.init_win = 65535
+        self.conn_credit = 65535
+        self.client_goaway = False
+        self.resp = {}             # sid -> [status, data, end]
+        self.srv_rst = {}          # sid -> codes the server sent
+        self.graceful_last = None
+        self.err_goaway = False
+        self.owed_bytes = 0
+
+    def _serr(self, sid, *codes):
+        self.serr.setdefault(sid, set()).update(codes)
+        if sid in self.st:
+            self.st[sid]["disturbed"] = True
+
+    def _unfinished(self):
+        return sum(1 for sid, s in self.st.items()
+                   if not (self.resp.get(sid, [None, 0, 0])[2] or sid in self.srv_rst or s["c_rst"]))
+
+    def sent(self, tok, step):
+        a = tok.split(":")
+        k = a[0]
+        if k == "H":
+            sid, kind, es, dep, padbad, contbad = int(a[1]), a[2], int(a[3]), a[4], int(a[5]), int(a[6])
+            self.n_headers += 1
+            if self.n_headers > 32:
+                self.conn.add(E_CALM)
+            if sid == 0 or sid % 2 == 0 or padbad or contbad:
+                self.conn.add(E_PROTOCOL)
+                return
+            if sid > self.max_sid and dep != "-" and int(dep) == sid:
+                # a stream cannot depend on itself: stream error (an endpoint may treat it as a connection error)
+                self._serr(sid, E_PROTOCOL)
+                self.conn.add(E_PROTOCOL)
+                self.max_sid = max(self.max_sid, sid)
+                return
+            if sid > self.max_sid and kind == "x":
+                self.conn.add(E_COMP)
+                self.max_sid = max(self.max_sid, sid)
+                return
+            if sid <= self.max_sid:
+                s = self.st.get(sid)
+                if kind == "x":
+                    self.conn.add(E_COMP)
+                if s and not s["c_end"] and not s["c_rst"] and es and not s["touched"] and s["step"] == step \
+                        and sid not in self.refusable:
+                    # trailers on a stream that is still open in both directions
+                    s["c_end"] = True
+                    if kind == "x":
+                        s["disturbed"] = True
+                    if s["reqlen"] > 0 and s["recv"] != s["reqlen"]:
+                        self._serr(sid, E_PROTOCOL)
+                    return
+                # anything else on a used id: a frame on a closed stream (the server may have finished and
+                # forgotten the stream), a second HEADERS without END_STREAM, an id going backwards
+                self._serr(sid, E_PROTOCOL, E_CLOSED)
+                self.conn.update((E_PROTOCOL, E_CLOSED))
+                return
+            self.max_sid = sid
+            status, body, reqlen, incr = [int(x) for x in kind[1:].split(",")]
+            self.st[sid] = {"status": status, "body": body, "reqlen": reqlen, "c_end": bool(es), "c_rst": False,
+                            "disturbed": False, "touched": False, "step": step, "recv": 0, "credit": self.init_win,
+                            "after_goaway": self.client_goaway or self.graceful_last is not None}
+            self.owed_bytes += body        # every response draws on the one connection send window
+            if self._unfinished() > ADV_MAX_STREAMS:
+                self.refusable.add(sid)
+            return
+        if k == "D":
+            sid, ln, pad, es = int(a[1]), int(a[2]), a[3], int(a[4])
+            if sid == 0 or sid % 2 == 0 or sid > self.max_sid:
+                self.conn.add(E_PROTOCOL)
+                return
+            s = self.st.get(sid)
+            if s:
+                s["touched"] = True
+            if pad != "-" and int(pad) >= ln:
+                self.conn.add(E_PROTOCOL)
+                return
+            if s is None or s["c_end"] or s["c_rst"]:
+                self._serr(sid, E_CLOSED)
+                self.conn.update((E_CLOSED, E_PROTOCOL))
+                return
+            s["recv"] += ln - (1 + int(pad) if pad != "-" else 0)
+            if s["reqlen"] >= 0 and s["recv"] > s["reqlen"]:
+                self._serr(sid, E_PROTOCOL)
+            if es:
+                s["c_end"] = True
+                if s["reqlen"] >= 0 and s["recv"] != s["reqlen"]:
+                    self._serr(sid, E_PROTOCOL)
+            return
+        if k == "W":
+            sid, ln, inc = int(a[1]), int(a[2]), int(a[3])
+            if ln != 4:
+                self.conn.add(E_FSIZE)
+            elif sid == 0:
+                if inc == 0:
+                    self.conn.add(E_PROTOCOL)
+                else:
+                    self.conn_credit += inc
+                    if self.conn_credit > 0x7fffffff:
+                        self.conn.add(E_FLOW)
+            elif sid % 2 == 0 or sid > self.max_sid:
+                self.conn.add(E_PROTOCOL)
+            else:
+                s = self.st.get(sid)
+                if s:
+                    s["touched"] = True
+                if inc == 0:
+                    self._serr(sid, E_PROTOCOL)
+                    self.conn.add(E_PROTOCOL)
+                elif s:
+                    s["credit"] += inc
+                    if s["credit"] > 0x7fffffff:
+                        self._serr(sid, E_FLOW)
+            return
+        if k == "R":
+            sid, ln = int(a[1]), int(a[2])
+            if ln != 4:
+                self.conn.add(E_FSIZE)
+            elif sid == 0 or sid % 2 == 0 or sid > self.max_sid:
+                self.conn.add(E_PROTOCOL)
+            elif sid in self.st:
+                self.st[sid]["c_rst"] = True
+                self.st[sid]["disturbed"] = True
+            return
+        if k == "Y":
+            sid, ln, dep = int(a[1]), int(a[2]), int(a[3])
+            if ln != 5:
+                self.conn.add(E_FSIZE)
+                self._serr(sid, E_FSIZE)
+            elif sid == 0:
+                self.conn.add(E_PROTOCOL)
+            elif dep == sid:
+                self._serr(sid, E_PROTOCOL)
+            return
+        if k == "S":
+            ack, sid, params, junk = int(a[1]), int(a[2]), a[3], int(a[4])
+            if sid != 0:
+                self.conn.add(E_PROTOCOL)
+            elif ack:
+                if params != "-" or junk:
+                    self.conn.add(E_FSIZE)
+                else:
+                    self.conn.add(E_PROTOCOL)      # (acknowledges nothing: the client acked the server's SETTINGS at set-up)
+            else:
+                if params != "-":
+                    for kv in params.split(","):
+                        kk, vv = [int(x) for x in kv.split("=")]
+                        if kk == 2 and vv > 1:
+                            self.conn.add(E_PROTOCOL); break
+                        if kk == 4:
+                            if vv > 0x7fffffff:
+                                self.conn.add(E_FLOW); break
+                            self.win_changed = True
+                            for s2 in self.st.values():
+                                s2["credit"] += vv - self.init_win
+                                if s2["credit"] > 0x7fffffff:
+                                    self._serr([i for i, x in self.st.items() if x is s2][0], E_FLOW)
+                            self.init_win = vv
+                        if kk == 5 and not 16384 <= vv <= 16777215:
+                            self.conn.add(E_PROTOCOL); break
+                if junk % 6:
+                    self.conn.add(E_FSIZE)
+            return
+        if k == "P":
+            if int(a[3]) != 8:
+                self.conn.add(E_FSIZE)
+            elif int(a[2]) != 0:
+                self.conn.add(E_PROTOCOL)
+            return
+        if k == "G":
+            sid, ln, code = int(a[1]), int(a[2]), int(a[3])
+            if ln < 8:
+                self.conn.add(E_FSIZE)
+            elif sid != 0:
+                self.conn.add(E_PROTOCOL)
+            else:
+                self.client_goaway = True
+                if code:
+                    self.conn.update(E_NAME)       # the client reported an error: the server may end as it likes
+            return
+        if k in ("C", "X"):
+            self.conn.add(E_PROTOCOL)
+        elif k == "O":
+            self.conn.add(E_FSIZE)
+
+    def observe(self, ctl, streams, step):
+        for t in ctl:
+            if t[0] == "G":
+                last, code = [int(x) for x in t[1:].split(",")]
+                if code:
+                    if code not in self.conn:
+                        return ("GOAWAY(%s) although no frame the client sent is a connection error of that kind"
+                                % E_NAME.get(code, code))
+                    self.err_goaway = True
+                elif self.graceful_last is None or last < self.graceful_last:
+                    self.graceful_last = last
+            elif t[0] == "R":
+                sid, code = [int(x) for x in t[1:].split(",")]
+                self.srv_rst.setdefault(sid, set()).add(code)
+        for sid, (status, data, end) in streams.items():
+            r = self.resp.setdefault(sid, [None, 0, 0])
+            if status is not None:
+                r[0] = status
+            r[1] += data
+            r[2] |= end
+            s = self.st.get(sid)
+            if s and r[0] is not None and r[0] != s["status"]:
+                return "request on stream %d answered with status %s, expected %d" % (sid, r[0], s["status"])
+            if s and r[1] > s["body"]:
+                return "response on stream %d carries %d octets, the resource has %d" % (sid, r[1], s["body"])
+        for sid, codes in self.srv_rst.items():
+            for code in codes:
+                if code == 0:
+                    if not self.resp.get(sid, [None, 0, 0])[2]:
+                        return "RST_STREAM(NO_ERROR) on stream %d whose response was not finished" % sid
+                elif code == E_REFUSED:
+                    if sid not in self.refusable:
+                        return "RST_STREAM(REFUSED_STREAM) on stream %d below the advertised concurrency limit" % sid
+                elif code not in self.serr.get(sid, ()) and not self.conn:
+                    return ("RST_STREAM(%s) on stream %d although no frame the client sent warrants it"
+                            % (E_NAME.get(code, code), sid))
+        # requests that are owed a response by now
+        if self.conn:
+            return None                # a connection error is warranted: nothing is owed any more
+        for sid, s in sorted(self.st.items()):
+            if s["status"] not in (200, 404) or s["disturbed"] or not s["c_end"] or sid in self.refusable \
+                    or s["after_goaway"] or s.get("checked"):
+                continue
+            if self.graceful_last is not None and sid > self.graceful_last:
+                continue
+            s["checked"] = True
+            r = self.resp.get(sid, [None, 0, 0])
+            if r[0] is None:
+                return ("well-formed request on stream %d got no response although no frame the client sent "
+                        "warrants an error" % sid)
+            if not self.win_changed and s["body"] <= 65535 and self.owed_bytes <= 65535 \
+                    and (r[1] != s["body"] or not r[2]):
+                return ("well-formed request on stream %d got an incomplete response (%d of %d octets, END_STREAM %d) "
+                        "although no frame the client sent warrants an error" % (sid, r[1], s["body"], r[2]))
+        return None
+
+
+def client_oracle(sent_steps, canon_steps, closed=None):
+    v = ClientView()
+    seen_goaway = False
+    for i, toks in enumerate(sent_steps):
+        if v.err_goaway:
+            break
+        for t in toks:
+            v.sent(t, i)
+        ctl, streams = canon_steps[i] if i < len(canon_steps) else ([], {})
+        seen_goaway = seen_goaway or any(t[0] == "G" for t in ctl)
+        verdict = v.observe(ctl, streams, i)
+        if verdict:
+            return verdict
+    if closed and not seen_goaway:
+        return "connection ended by the server without GOAWAY"
     return None
 
 
@@ -517,11 +817,15 @@ def run_scenario(port, line, expect, seed):
             canon.append(canon_frames(fr, hp))
     except Exception as ex:       # undecodable response header block
         return None, "response header block does not decode: %s" % ex, frame_steps
-    verdict = monitor(sent_steps, frame_steps)
+    verdict = monitor(sent_steps, frame_steps) or client_oracle(sent_steps, canon)
     return canon, verdict, frame_steps
 
 
 def run(ctx):
+    # byte level, in-process: every read segmentation (fast; first)
+    import sys
+    from . import c05_splits
+    c05_splits.run(ctx, sys.modules[__name__])
     bd, err = e2e.build_server()
     if bd is None:
         ctx.broken.append({"kind": "server-build", "names": ["lighttpd"], "log": err[-3000:]})
@@ -573,7 +877,7 @@ def run(ctx):
         ctx.evaluations += 1
         ctx.keys["h2:" + "|".join(",".join(sorted(set(x[0] for x in e[0]))) + ":" + str(len(e[1])) for e in exp)[:60]] += 1
         if verdict:
-            ctx.violation("oracle:h2:" + verdict[:40], verdict,
+            ctx.violation("oracle:h2:" + sig_of(verdict)[:40], verdict,
                           {"property": ctx.pid, "kind": "property-oracle", "correspondence": "e2e-h2-frames",
                            "input": line, "impl_obs": [str(c_) for c_ in (canon or [])], "oracle_verdict": verdict},
                           found=True)
@@ -600,6 +904,10 @@ def run(ctx):
 
 
 def replay_line(ctx, rep):
+    if str(rep.get("correspondence", "")).startswith("inproc-h2-splits"):
+        import sys
+        from . import c05_splits
+        return c05_splits.replay(ctx, sys.modules[__name__], rep)
     bd, err = e2e.build_server()
     line = rep["input"]
     mo, rc, merr = C.run_model("h2", [line])
